@@ -463,8 +463,9 @@ def r_chain(p):
 
 
 def r_amap(p):
-    """an analytical (catalogue) mapping with numeric parameters applied to a square: the expressions of the mapped
-    domain's mapping and a lowered derivative must be those of THIS parameter set (MappedDomain.__new__ is cached)"""
+    """an analytical (catalogue) mapping applied to a square, its parameters numeric, partly numeric or left symbolic:
+    the expressions of the mapped domain's mapping and a lowered derivative must be those of THIS parameter set
+    (MappedDomain.__new__ is cached); the symbolic constants of the mapping (`Mapping.constants`) are part of the result"""
     from sympde.topology import analytical_mapping as am, element_of, LogicalExpr, dx, dy
     cls = getattr(am, p['mcls'])
     M = cls(p['mname'], dim=2, **p['params'])
@@ -475,8 +476,95 @@ def r_amap(p):
     V = mk_space(p['sp'], D)
     u = element_of(V, p['fn'])
     res = [[str(x) for x in D.mapping.expressions], [str(x) for x in M.expressions],
-           LogicalExpr(dx(u) if p.get('op', 'dx') == 'dx' else dy(u), D)]
+           LogicalExpr(dx(u) if p.get('op', 'dx') == 'dx' else dy(u), D) if p.get('lower', True) else None,
+           [str(c) for c in M.constants], [str(c) for c in D.mapping.constants]]
     return result(res, ins, b)
+
+
+def mk_catalogue(spec):
+    """spec = [name, class name, {parameter: number}] -> a 2-D mapping of the catalogue ('Mapping' = symbolic)"""
+    from sympde.topology import analytical_mapping as am, Mapping
+    if spec[1] == 'Mapping':
+        return Mapping(spec[0], dim=2)
+    return getattr(am, spec[1])(spec[0], dim=2, **spec[2])
+
+
+def r_mjoin(p):
+    """two squares side by side, each with its own catalogue mapping (numeric parameters), joined along x1: what the
+    interface knows about the geometry (its mapping's minus / plus expressions and Jacobians, its logical interface) and,
+    with `lower`, the kernels of a form over the interface lowered on the logical domain.  Ground truth for an affine
+    mapping: the Jacobian is the matrix of the recipe's own coefficients."""
+    from sympy import Matrix, simplify
+    from sympde.topology import Domain, element_of, LogicalExpr
+    from sympde.calculus import jump, avg, Dn
+    from sympde.expr import BilinearForm, integral
+    from sympde.expr.evaluation import TerminalExpr
+    A, B = mk_domain(['cube', p['names'][0], 2, 0]), mk_domain(['cube', p['names'][1], 2, 1])
+    Ms = [mk_catalogue(m) for m in p['amaps']]
+    D1, D2 = Ms[0](A), Ms[1](B)
+    ins = [('A', A), ('B', B), ('D1', D1), ('D2', D2)]
+    b = snap(ins)
+    D = Domain.join([D1, D2], [((0, 0, 1), (1, 0, -1), p.get('ornt', 1))], p['name'])
+    I = D.interfaces
+    res = [str(I), str(I.logical_domain)]
+    bad = []
+    for side, spec in (('minus', p['amaps'][0]), ('plus', p['amaps'][1])):
+        m = getattr(I.mapping, side)
+        J = Matrix(m.jacobian_expr)
+        res.append([side, str(m.name), [str(x) for x in m.expressions], str(J)])
+        if spec[1] == 'AffineMapping' and len(spec[2]) == 6:
+            q = spec[2]
+            want = Matrix([[q['a11'], q['a12']], [q['a21'], q['a22']]])
+            if any(simplify(x) != 0 for x in (J - want)):
+                bad.append('the %s side of the interface of %s carries the Jacobian %s, the patch was mapped with %s' % (side, p['name'], J.tolist(), want.tolist()))
+    if p.get('lower'):
+        V = mk_space(['S', p['sp'], 'h1'], D)
+        u, v = element_of(V, p['fn']), element_of(V, p['fn'] + 't')
+        e = {'jj': lambda: jump(u) * jump(v), 'aj': lambda: avg(u) * jump(v)}[p.get('bil', 'jj')]()
+        a = BilinearForm((u, v), integral(I, e))
+        res.append([str(k) for k in TerminalExpr(LogicalExpr(a, D), D.logical_domain)])
+    r = result(res, ins, b)
+    r['bad'] = bad
+    return r
+
+
+def r_corners(p):
+    """an nx x ny arrangement of unit squares joined along all inner edges: the shared corners (Domain.corners, 2-D only).
+    Ground truth = elementary geometry on the recipe's own table patch -> lower-left vertex: a vertex is shared when at
+    least two patches have a corner there; every shared vertex is listed once, with exactly the patch corners meeting there"""
+    from sympde.topology import Domain, Square
+    from sympde.topology.basic import Union
+    nx, ny = p['grid']
+    names = p['names']
+    geo = {names[j * nx + i]: (i, j) for j in range(ny) for i in range(nx)}
+    sq = {n: Square(n, bounds1=(x, x + 1), bounds2=(y, y + 1)) for n, (x, y) in geo.items()}
+    at = {(x, y): n for n, (x, y) in geo.items()}
+    conns = []
+    for (x, y), n in sorted(at.items()):
+        if (x + 1, y) in at:
+            conns.append(((sq[n], 0, 1), (sq[at[(x + 1, y)]], 0, -1), 1))
+        if (x, y + 1) in at:
+            conns.append(((sq[n], 1, 1), (sq[at[(x, y + 1)]], 1, -1), 1))
+    conns = [conns[i] for i in p.get('corder', range(len(conns)))]
+    patches = [sq[n] for n in (p.get('porder') or sorted(sq))]
+    ins = [('p_' + n, sq[n]) for n in sorted(sq)]
+    b = snap(ins)
+    D = Domain.join(patches, conns, p['name'])
+    C = D.corners
+    groups = list(C.args) if isinstance(C, Union) else ([] if C is None else [C])
+    got = [[(str(cb.domain.name), tuple((int(x.axis), int(x.ext)) for x in cb.boundaries)) for cb in ci.corners] for ci in groups]
+    want = {}
+    for n, (x, y) in geo.items():
+        for e0 in (-1, 1):
+            for e1 in (-1, 1):
+                want.setdefault((x + (e0 + 1) // 2, y + (e1 + 1) // 2), []).append((n, ((0, e0), (1, e1))))
+    want = sorted(sorted(v) for v in want.values() if len(v) > 1)
+    bad = []
+    if sorted(sorted(g) for g in got) != want:
+        bad.append('Domain.corners of the %dx%d arrangement lists the vertices %s; by geometry the shared vertices are %s' % (nx, ny, got, want))
+    r = result([str(C), got, C], ins, b)
+    r['bad'] = [x if len(x) < 900 else x[:900] + ' ...' for x in bad]
+    return r
 
 
 def r_intsum(p):
@@ -658,7 +746,7 @@ def r_mpatch(p):
     return r
 
 
-RECIPES = {'mpatch': r_mpatch, 'joinlow': r_joinlow, 'symprod': r_symprod, 'iface': r_iface, 'amap': r_amap, 'intsum': r_intsum, 'chain': r_chain, 'tkeys': r_tkeys, 'idxmut': r_idxmut, 'tgrad': r_tgrad, 'tvec': r_tvec, 'form': r_form, 'logical': r_logical, 'symbolic': r_symbolic,
+RECIPES = {'mjoin': r_mjoin, 'corners': r_corners, 'mpatch': r_mpatch, 'joinlow': r_joinlow, 'symprod': r_symprod, 'iface': r_iface, 'amap': r_amap, 'intsum': r_intsum, 'chain': r_chain, 'tkeys': r_tkeys, 'idxmut': r_idxmut, 'tgrad': r_tgrad, 'tvec': r_tvec, 'form': r_form, 'logical': r_logical, 'symbolic': r_symbolic,
            'idxder': r_idxder, 'hodge': r_hodge, 'union': r_union, 'join': r_join, 'comm': r_comm,
            'equation': r_equation, 'mapped': r_mapped}
 
